@@ -126,7 +126,8 @@ def condition_detect_in_statements(statements: List[Statement],
             
         # else part
         last_idx = len(ifop.if_statements_list) - 1
-        if isinstance(ifop.if_statements_list[last_idx].code, JumpOperation):
+        if (last_idx >= 0 and 
+            isinstance(ifop.if_statements_list[last_idx].code, JumpOperation)):
             jop = cast(JumpOperation, ifop.if_statements_list[last_idx].code)
             start = jop.position
             end = cast(int, jop.address)
